@@ -188,12 +188,13 @@ class C16(hc.PProp):
                 exp = cf.version_body(plan, r.u, r.ver)
                 if not m.complete or m.body != exp:
                     kind = 'hit-truncated' if exp.startswith(m.body) else 'hit-bytes-differ'
-                    if kind == 'hit-bytes-differ' and len(m.body) == len(exp):
-                        # the head of this version followed by the tail of another, equally long version of the same URL (a same-size overwrite cut short)?
-                        i = next(j for j in range(len(exp)) if m.body[j] != exp[j])
+                    if kind == 'hit-bytes-differ':
+                        # the head of this version followed by the tail of another version of the same URL (an overwrite cut short: reused slots of the new
+                        # version link into slots that still hold the old one)?
+                        i = next((j for j in range(min(len(exp), len(m.body))) if m.body[j] != exp[j]), min(len(exp), len(m.body)))
                         for ov in set(x[3] for x in sent1 if x[2] == r.u and x[3] != r.ver):
                             ob = cf.version_body(plan, r.u, ov)
-                            if len(ob) == len(exp) and m.body[i:] == ob[i:]:
+                            if i > 0 and len(ob) == len(m.body) and m.body[i:] == ob[i:]:
                                 kind = 'hit-new-head-old-tail'
                     cls = 'C16:' + kind + ':%s:%s' % (plan['conf']['cache'], 'partial-write' if part is not None else 'between-operations')
                     o.violations.append(Violation(cls, 'after a kill at %s: hit for url %d version %d: %s (complete=%s)' % (tag, r.u, r.ver, hc.diff_desc(m.body, exp), m.complete)))
